@@ -7,7 +7,8 @@ from gen_sqrt_tabs import gen_sqrt_tabs
 LEAN_MODULES = ["MpirProofs.Props.C09"]
 THEOREMS = ["Mpir.Root.perfsqr_filters_sound", "Mpir.Root.perfect_square_p_iff", "Mpir.Root.sqrtrem_normalise_ok",
             "Mpir.Root.mpz_root_sign_flag", "Mpir.Root.sqrtrem1_spec", "Mpir.Root.sqrtrem2_spec'", "Mpir.Root.dc_sqrtrem_spec", "Mpir.Root.mpn_sqrtrem_spec",
-            "Mpir.Root.mpn_perfect_square_p_spec", "Mpir.Root.mpz_sqrt_spec", "Mpir.Root.root_final_adjust"]
+            "Mpir.Root.mpn_perfect_square_p_spec", "Mpir.Root.mpz_sqrt_spec", "Mpir.Root.root_final_adjust",
+            "Mpir.Root.perfect_power_p_iff_partial"]
 GEN = [gen_sqrt_tabs]
 TRUSTED = ["hand-written models lean/Mpir/Model/Root.lean: word level for mpn_sqrtrem1/2, mod_34lsub1 and the PERFSQR tests, "
            "value level for mpn_dc_sqrtrem, mpn_sqrtrem, mpn_rootrem(_basecase/_internal), mpz wrappers, perfpow.c "
